@@ -1,7 +1,107 @@
 import Mustache.Basic.LineIO
+import Mustache.Model.Iteration
+
+/-! `driver iter`: evaluates the iteration model (C04) on configuration lines.
+
+input, one configuration per line:
+  `cfg id=<n> job=<plain|idx|ent|opt|shr|arr|nt|nts> mode=<current|parallel|single> T=<n|-> threads=<k>
+       req=<csv> reqs=<csv> archs=<mask csv>/<shared csv>/<size>/<cs>/<cap>/<extra 0|1>/<pattern|->;...`
+output: the observation lines of `harness/job_driver.cpp` (`R`, `B`, `K`, `A`, `I`, `end`). -/
 namespace Mustache.Driver.Iter
-/-- stub, replaced when the model lands -/
+open Mustache Mustache.Iteration
+
+structure Cfg where
+  id : Nat := 0
+  job : String := "idx"
+  mode : Mode := .current
+  T : Option Nat := none
+  threads : Nat := 3
+  req : List Nat := []
+  reqs : List Nat := []
+  archs : List ArchCfg := []
+
+def parsePattern (s : String) : Nat → Bool :=
+  let bits : List Bool := if s = "-" then [] else s.toList.map (· == '1')
+  fun ci => bits.getD ci false
+
+def parseArch (s : String) : Option ArchCfg :=
+  match s.splitOn "/" with
+  | [m, sh, size, cs, cap, extra, pat] => do
+    let m ← csvNats? m
+    let sh ← csvNats? sh
+    let size ← size.toNat?
+    let cs ← cs.toNat?
+    let cap ← cap.toNat?
+    some ⟨m, sh, size, cs, cap, extra == "1", parsePattern pat⟩
+  | _ => none
+
+def parseKV (c : Cfg) (w : String) : Option Cfg :=
+  match w.splitOn "=" with
+  | ["id", v] => do some { c with id := (← v.toNat?) }
+  | ["job", v] => some { c with job := v }
+  | ["mode", v] =>
+    match v with
+    | "current" => some { c with mode := .current }
+    | "parallel" => some { c with mode := .parallel }
+    | "single" => some { c with mode := .single }
+    | _ => none
+  | ["T", v] => if v = "-" then some { c with T := none } else do some { c with T := some (← v.toNat?) }
+  | ["threads", v] => do some { c with threads := (← v.toNat?) }
+  | ["req", v] => do some { c with req := (← csvNats? v) }
+  | ["reqs", v] => do some { c with reqs := (← csvNats? v) }
+  | ["archs", v] => do
+    let l ← ((v.splitOn ";").filter (· ≠ "")).mapM parseArch
+    some { c with archs := l }
+  | _ => none
+
+def parseCfg (l : String) : Option Cfg :=
+  match words l with
+  | "cfg" :: rest => rest.foldlM parseKV {}
+  | _ => none
+
+def joinSp (l : List String) : String := " ".intercalate l
+
+def showArr (task : Nat) (mine : List NtCall) : List String :=
+  if mine.isEmpty then []
+  else [s!"A {task} " ++ joinSp (mine.map fun r => s!"{r.arch},{r.first},{r.len},{r.eindex},{r.inTask}")]
+
+def showInv (withIdx : Bool) (task : Nat) (mine : List Inv) : List String :=
+  if mine.isEmpty then []
+  else [s!"I {task} " ++ joinSp (mine.map fun r =>
+    if withIdx then s!"{r.arch},{r.idx},{r.eindex},{r.inTask}" else s!"{r.arch},{r.idx},-,-")]
+
+/-- `BaseJob::taskCount` (default) -/
+def defaultTaskCount (total threads : Nat) : Nat := min total (threads + 1)
+
+def runCfg (c : Cfg) : List String :=
+  let fr := applyFilter c.req c.reqs c.archs 0
+  let total := totalCount fr
+  let tc := match c.T with
+    | some t => t
+    | none => defaultTaskCount total c.threads
+  let outs := runJob c.mode fr tc
+  if total < 1 then [s!"end {c.id}"]
+  else
+    let T := match c.mode with
+      | .current => 1
+      | _ => max 1 tc
+    let blocks := fr.flatMap fun fa => fa.blocks.map fun b => s!"{fa.arch}:{b.b}-{b.e}"
+    let arrayForm := c.job == "arr" || c.job == "nt" || c.job == "nts"
+    [s!"R {c.id} total={total} T={T}", joinSp ("B" :: blocks)] ++
+      outs.flatMap (fun t =>
+        s!"K {t.id} {t.size}" ::
+          (if arrayForm then showArr t.id (arraysNt t.id t.start t.arrays 0)
+           else showInv (c.job != "plain") t.id (arraysInvs t.id t.start t.arrays 0))) ++
+      [s!"end {c.id}"]
+
 def main (_args : List String) : IO UInt32 := do
-  IO.eprintln "driver: model Iter not built yet"
-  return 2
+  let out ← IO.getStdout
+  let _ ← foldStdin (fun (_ : Unit) l => do
+    match parseCfg l with
+    | some c => for s in runCfg c do out.putStrLn s
+    | none => out.putStrLn "E bad configuration line\nend -1"
+    return ()) ()
+  out.flush
+  return 0
+
 end Mustache.Driver.Iter
